@@ -212,6 +212,12 @@ def gen(rng, tier, shard, batch):
         if _CON is None:
             _CON = constructed(random.Random(20260109))
         reqs += _CON[shard::E.NCPU]
+    if batch == 0:
+        # decision boundary of division-free divisibility tests (x * inverse(5^n) mod 2^w against floor((2^w - 1) / 5^n))
+        for c, n_ in G.modinv_boundary_all(rng)[shard::E.NCPU]:
+            for s in set((n_, 18, rng.randrange(0, 19))):
+                reqs.append("ratio %s" % G.fD(c * rng.choice((1, -1)), s))
+                reqs.append("hash %s" % G.fD(c, s))
     for _ in range(N_RANDOM[tier]):
         c, s = G.dec(rng)
         k = rng.random()
